@@ -105,7 +105,7 @@ fn main() {
         }
         n += 1;
         match f64::try_from_term(lit("NaN", dt)) { Ok(y) if y.is_nan() => {}, r => fail(format!("f64::try_from_term(NaN^^{}) = {:?}", dt, r)) }
-        for lf in ["inf", "infinity", "Infinity", "INFINITY", "nan", "NAN", "Nan", "-inf", "+infinity", "-Infinity", "", "1e", " 1", "1 ", "0x10", "1_0"] {
+        for lf in ["inf", "infinity", "Infinity", "INFINITY", "nan", "NAN", "Nan", "-inf", "+infinity", "-Infinity", "", "1e", " 1", "1 ", "0x10", "1_0", "+NaN", "-NaN", "+nan", "-nan", "++1", "+-1", "INF ", "-INFINITY", "+Inf", "NaN1", "1NaN", "e5", ".", "+", "-", "+.", "1e+", "1.5.2", "1,5", "١"] {
             n += 1;
             if let Ok(y) = f64::try_from_term(lit(lf, dt)) { fail(format!("f64::try_from_term({:?}^^{}) succeeds with {:?} although the form is outside the lexical space", lf, dt, y)); }
         }
